@@ -1275,6 +1275,15 @@ func compileExpr(context *funcContext, reg int, expr ast.Expr, ec *expcontext) i
 			raiseCompileError(context, sline(ex), "cannot use '...' outside a vararg function")
 		}
 		context.Proto.IsVarArg &= ^VarArgNeedsArg
+		if ec.varargopt == 0 && shouldmove(ec, reg) {
+			// the target is an existing local: VARARG sets the register top to
+			// just above its last result, which would cut off (and clear) every
+			// local above the target. Like a call, take the value in a free
+			// register and move it.
+			code.AddABC(OP_VARARG, reg, 2, 0, sline(ex))
+			code.AddABC(OP_MOVE, ec.reg, reg, 0, sline(ex))
+			return 1
+		}
 		code.AddABC(OP_VARARG, sreg, 2+ec.varargopt, 0, sline(ex))
 		if context.RegTop() > (sreg+2+ec.varargopt) || ec.varargopt < -1 {
 			return 0
